@@ -75,6 +75,7 @@ def gen(g, rng):
             body.append(Func(chain[i], [], [ExprS(Call('显示', [Call(chain[i - 1], [])])), Ret(Num('2'))]))
         body.append(Func('内败', [], [Throw('异常', [Str('早')])]))
     names = ['层%d' % i for i in range(1, depth + 1)]
+    uses_other = [False]
     # some levels are user-defined constructors (如何新建型i？): their frame is an active call like any other
     is_ctor = [rng.random() < 0.25 for _ in range(depth)]
 
@@ -98,12 +99,17 @@ def gen(g, rng):
             fb.append(While(Bin('lt', Var(c), Num('1')), [ExprS(Assign(Var(c), Bin('+', Var(c), Num('1')))), inner]))
         else:
             fb.append(inner)
+        # some bodies on the way have handlers — for ANOTHER exception type: the exception passes them untouched, and so do the frames
+        # of the calls that failed below
+        other = [('旁错', [ExprS(Call('显示', [Str('旁')])), Ret(Num('0'))])] if rng.random() < 0.3 else []
+        if other:
+            uses_other[0] = True
         if is_ctor[i - 1]:
             body.append(Class('型%d' % i, [('名', Str('型'))], []))
-            body.append(Func('型%d' % i, [], fb, ctor=True))
+            body.append(Func('型%d' % i, [], fb, other, ctor=True))
         else:
             fb.append(Ret(Num('1')))
-            body.append(Func(names[i - 1], [], fb))
+            body.append(Func(names[i - 1], [], fb, other))
     main = [filler(g, rng) for _ in range(rng.randint(0, 4))]
     if handled:
         main.append(ExprS(Call('显示', [Call('先败', [])])))
@@ -115,6 +121,8 @@ def gen(g, rng):
         c0.tag = 'call_0'
         main.append(c0)
     main.append(ExprS(Call('显示', [Str('不达')])))
+    if uses_other[0]:
+        body.insert(0, Class('旁错', [('内容', Str(''))], []))
     return Program([], body + main), depth, tail
 
 
@@ -159,7 +167,7 @@ def run(ctx):
         if not ok:
             continue
         i = rng.choice(ok)
-        pre = rng.choice(['', '甲乙丙 ', 'ab ', '数甲 '])
+        pre = rng.choice(['', '甲乙丙 ', 'ab ', '数甲 ', '“~” ', '“a~~b”  ', '“甲~” '])   # “ ” ~ are one column wide, CJK two
         bad = lines_[:i] + [pre + '）'] + lines_[i:]
         text = '\n'.join(bad)
         width = sum(2 if ord(c) > 0x2E80 else 1 for c in pre)
